@@ -18,6 +18,7 @@ const vfMaxServe = 24 // stated cut: a single read of more than 24 bytes is not 
 type vfStream struct {
 	pos, size int64
 	reads     int
+	eofReads  int
 	maxReads  int
 	mode      int // focus of the exploration, see vfFocus
 	bo        binary.ByteOrder
@@ -68,12 +69,18 @@ func (s *vfStream) Read(p []byte) (int, error) {
 	if len(p) > vfMaxServe {
 		verifAssume(false) // stated cut (strings/arrays longer than vfMaxServe bytes in one read)
 	}
+	if s.pos >= s.size {
+		// a decoder that keeps reading after it has been told that the file has ended does not terminate
+		s.eofReads++
+		verifAssert(s.eofReads <= 3, "decoder-keeps-reading-after-end-of-file")
+		if s.eofReads > 3 {
+			verifAssume(false)
+		}
+		return 0, io.EOF
+	}
 	s.reads++
 	if s.reads > s.maxReads {
 		verifAssume(false) // stated cut: at most maxReads reads per decode
-	}
-	if s.pos >= s.size {
-		return 0, io.EOF
 	}
 	n := int64(len(p))
 	if s.size-s.pos < n {
